@@ -108,23 +108,32 @@ func (hf *hobFit) caseOf(size uint64) caseT {
 
 type extRun struct {
 	c    *core.Ctx
+	mo   *monitor
 	ents []entry
 	ms   []metrics.Sample
 }
 
 func (x *extRun) call(i int, e *entry, gname string, in []byte, fw []byte, o *Opts) (core.Measured, error) {
+	m, err, _ := x.callS(i, e, gname, in, fw, o, false)
+	return m, err
+}
+
+// callS is call with the status of the monitored call; a call that is not made (its entry point has a
+// non-termination verdict for this shape of options in this process) and one that did not return
+// report an error that no repository code produces.
+func (x *extRun) callS(i int, e *entry, gname string, in []byte, fw []byte, o *Opts, earlyStop bool) (core.Measured, error, callStatus) {
 	c := x.c
+	shape := optShape(e.name, o)
+	if why := x.mo.stoppedWhy(e.name, shape); why != "" {
+		c.Count("not-called-after-"+why+"/"+e.name+"/"+shape, 1)
+		return core.Measured{}, errNotCalled, stBlocked
+	}
 	c.Begin(i, gname, e.name, in)
 	b := budget(len(fw), e.nmeas(o))
-	wd.entry.Store(e.name)
-	wd.bud.Store(b.Alloc)
-	wd.limit.Store(b.Alloc + allocStopAt)
-	wd.start.Store(heapAllocs(x.ms) | 1)
-	var err error
-	m := c.Guard(i, e.name, gname, b, func() {
-		defer disarm()
-		err = e.call(fw, o)
-	})
+	m, err, st := x.mo.run(i, e.name, gname, b, shape, earlyStop, func() error { return e.call(fw, o) })
+	if st != stReturned {
+		return m, errNoReturn, st
+	}
 	if m.Panicked {
 		c.Count("panic/"+e.name, 1)
 	} else if err == nil {
@@ -132,8 +141,13 @@ func (x *extRun) call(i int, e *entry, gname string, in []byte, fw []byte, o *Op
 	} else {
 		c.Count("error/"+e.name, 1)
 	}
-	return m, err
+	return m, err, st
 }
+
+var (
+	errNotCalled = fmt.Errorf("(harness) not called: the entry point has a non-termination verdict in this process")
+	errNoReturn  = fmt.Errorf("(harness) the call did not return")
+)
 
 func (x *extRun) entry(name string) *entry {
 	for k := range x.ents {
@@ -173,8 +187,8 @@ func (x *extRun) build(i int, f func() (caseT, []byte)) (cs caseT, fw []byte, ok
 
 // runExt runs the appended strata. ext0 is the first case number behind the layout stratum, layout0
 // the first of the layout stratum. Returns false when a generator faulted.
-func runExt(c *core.Ctx, ents []entry, layout0, ext0 int) bool {
-	x := &extRun{c: c, ents: ents, ms: []metrics.Sample{{Name: "/gc/heap/allocs:bytes"}}}
+func runExt(c *core.Ctx, mo *monitor, ents []entry, layout0, ext0 int) bool {
+	x := &extRun{c: c, mo: mo, ents: ents, ms: []metrics.Sample{{Name: "/gc/heap/allocs:bytes"}}}
 	generatorOK := true
 	fits := hobFitCases()
 	nC := c.N(130, 1560)
@@ -222,9 +236,13 @@ func runExt(c *core.Ctx, ents []entry, layout0, ext0 int) bool {
 					}
 					var in []byte
 					if first {
-						in, first = input, false
+						in = input
 					}
-					m, err := x.call(i, e, gname, in, fw, &cs.opts)
+					m, err, st := x.callS(i, e, gname, in, fw, &cs.opts, false)
+					if st != stReturned {
+						continue
+					}
+					first = false
 					if m.Panicked {
 						c.Cell("tdx.hob-fit|%s|PANIC", e.name)
 						continue
@@ -284,33 +302,64 @@ func runExt(c *core.Ctx, ents []entry, layout0, ext0 int) bool {
 		c.Floor("concurrent/accepted-some-well-formed-image/"+e.name, concAccepted[e.name] > 0)
 	}
 	c.Count("concurrent/calls", concCallsTotal)
+	// the strata appended behind the concurrent batches (wrap.go)
+	if !runTail(x, ext0+total) {
+		generatorOK = false
+	}
 	return generatorOK
 }
 
 // ---- concurrent ----
 
 type barrier struct {
-	n     int32
-	count atomic.Int32
-	gen   atomic.Int32
+	n         int32
+	count     atomic.Int32
+	gen       atomic.Int32
+	mu        sync.Mutex
+	ch        chan struct{} // closed when the current generation is complete
+	abandonCh chan struct{} // closed when the batch has a non-termination verdict: everybody goes home
+	abandoned atomic.Bool
 }
 
-func (b *barrier) wait() {
+func newBarrier(n int) *barrier {
+	return &barrier{n: int32(n), ch: make(chan struct{}), abandonCh: make(chan struct{})}
+}
+
+func (b *barrier) abandon() {
+	if b.abandoned.CompareAndSwap(false, true) {
+		close(b.abandonCh)
+	}
+}
+
+// wait reports false when the batch was abandoned.
+func (b *barrier) wait() bool {
 	g := b.gen.Load()
+	b.mu.Lock()
+	ch := b.ch // the channel of this generation: taken before this goroutine is counted
+	b.mu.Unlock()
 	if b.count.Add(1) == b.n {
+		b.mu.Lock()
+		b.ch = make(chan struct{})
+		b.mu.Unlock()
 		b.count.Store(0)
 		b.gen.Add(1)
-		return
+		close(ch)
+		return !b.abandoned.Load()
 	}
-	// spin while the others are about to arrive (calls on these images take 10..500 us), then poll: a
-	// goroutine that waits for a call that does not return must not burn a core
-	for k := 0; b.gen.Load() == g; k++ {
-		if k < 4000 {
-			runtime.Gosched()
-		} else {
-			time.Sleep(50 * time.Microsecond)
+	// spin while the others are about to arrive (calls on these images take 10..500 us), then park: a
+	// goroutine that waits for a call that does not return must not use the CPU at all (mon.go)
+	for k := 0; k < 4000; k++ {
+		if b.gen.Load() != g {
+			return !b.abandoned.Load()
 		}
+		runtime.Gosched()
 	}
+	select {
+	case <-ch:
+	case <-b.abandonCh:
+		return false
+	}
+	return !b.abandoned.Load()
 }
 
 func procUserCPU() time.Duration {
@@ -443,7 +492,9 @@ func (x *extRun) concurrent(i, b int, overlapped *bool, accepted map[string]int,
 	okBy := map[string]int{}
 	afterFail := map[string]int{}
 	cells := map[string]bool{}
-	bar := &barrier{n: concGoroutines}
+	bar := newBarrier(concGoroutines)
+	var cur [concGoroutines]atomic.Int32 // step (1-based) a goroutine is inside a call of; 0 = between calls
+	stuckWhere := ""
 	c.Guard(i, ename, gname, bd, func() {
 		var wg sync.WaitGroup
 		for g := 0; g < concGoroutines; g++ {
@@ -460,7 +511,15 @@ func (x *extRun) concurrent(i, b int, overlapped *bool, accepted map[string]int,
 						copy(buf, fw)
 						fw = buf[:len(fw):len(fw)]
 					}
-					bar.wait()
+					if !bar.wait() {
+						return
+					}
+					shape := optShape(st.e.name, &o)
+					if why := x.mo.stoppedWhy(st.e.name, shape); why != "" {
+						c.Count("not-called-after-"+why+"/"+st.e.name+"/"+shape, 1)
+						continue
+					}
+					cur[g].Store(int32(j + 1))
 					var err error
 					panicked := false
 					func() {
@@ -503,11 +562,48 @@ func (x *extRun) concurrent(i, b int, overlapped *bool, accepted map[string]int,
 					}
 					mu.Unlock()
 					prevFailed = !panicked && err != nil
+					cur[g].Store(0)
 				}
 			}(g)
 		}
-		wg.Wait()
+		// the batch is awaited the way a single call is (mon.go): it is declared blocked only when the whole
+		// process has been idle for a long stretch and every goroutine of the batch that is not waiting at the
+		// barrier is parked on a synchronisation primitive
+		done := make(chan struct{})
+		go func() { wg.Wait(); close(done) }()
+		tk := time.NewTicker(idleTick)
+		defer tk.Stop()
+		var w idleWatch
+		w.reset()
+		for {
+			select {
+			case <-done:
+				return
+			case <-tk.C:
+			}
+			if blocked, desc := w.tick(c, "(*extRun).concurrent.func"); blocked {
+				stuckWhere = desc
+				bar.abandon()
+				return
+			}
+		}
 	})
+	if stuckWhere != "" {
+		var who []string
+		for g := range cur {
+			if j := int(cur[g].Load()); j > 0 {
+				st := &steps[g][j-1]
+				shape := optShape(st.e.name, &opts[g])
+				who = append(who, fmt.Sprintf("%s (options: %s) on a %s image", st.e.name, shape, st.kind))
+				x.mo.stop(st.e.name, shape, "a-non-termination-verdict")
+				c.Count("non-termination/blocked-calls/concurrent:"+st.e.name+"/"+shape, 1)
+			}
+		}
+		c.Violate(core.Violation{Kind: "oracle", Entry: ename, Site: ruleBlocked, Gen: gname, Case: i,
+			Detail: fmt.Sprintf("calls that did not return and do not compute: %s: %s. The batch is abandoned", strings.Join(who, ", "), stuckWhere)})
+	}
+	mu.Lock() // (an abandoned batch leaves goroutines behind; they are parked, but nothing below relies on that)
+	defer mu.Unlock()
 	for _, p := range panics {
 		c.Count("panic/concurrent:"+p.entry, 1)
 		c.Violate(core.Violation{Kind: "panic", Entry: "concurrent:" + p.entry, Site: p.site, Gen: gname + " on a " + p.gen + " image", Case: i, Detail: p.msg})
